@@ -22,7 +22,7 @@ from vf import gen, prog, sem, record
 from vf.checks import c06
 
 PROP = "C05"
-CASES = {"quick": 6000, "thorough": 100000}
+CASES = {"quick": 6000, "thorough": 400000}
 RULE = ("translate: C06 expression trees (depth<=5) evaluated at 3 random (G,F); collect: random legal instruction soups "
         "(<= 28 instructions over all 24 classes, 8 steps, constraints on PEP / leaf / composite functions, "
         "redeclarations, LMIs 1x1..3x3, partitions, 1-3 metrics) in build-only mode, cvxpy back-end and stand-in "
